@@ -199,19 +199,32 @@ class SymEnv(BaseEnv):
     def assume(self, cond, text=None):
         core.assume(cond, text)
 
+    crash_only = False      # C09 mode: only exceptions, definedness and finiteness are decided
+
+    def _skip(self, name):
+        return self.crash_only and "finite" not in name
+
     def prove(self, name, cond, margin=None):
+        if self._skip(name):
+            return True
         self.checked += 1
         return core.prove(name, cond, margin=margin)
 
     def prove_eq(self, name, a, b):
+        if self._skip(name):
+            return True
         self.checked += 1
         return core.prove_eq(name, self.num(a), self.num(b))
 
     def prove_le(self, name, a, b):
+        if self._skip(name):
+            return True
         self.checked += 1
         return core.prove_le(name, self.num(a), self.num(b))
 
     def prove_lt(self, name, a, b):
+        if self._skip(name):
+            return True
         self.checked += 1
         a, b = self.num(a), self.num(b)
         return core.prove(name, a < b, margin=lambda d: a - b >= d)
@@ -256,6 +269,8 @@ class ExactEnv(SymEnv):
         return a <= b + 1e-9 * (1 + abs(a) + abs(b))
 
     def _rec(self, name, ok):
+        if self.crash_only and "finite" not in name:
+            return True
         self.checked += 1
         if not ok:
             self.failed.append(dict(name=name))
@@ -478,7 +493,11 @@ class RealEnv(BaseEnv):
         if not bool(cond):
             raise core.ReplayReject(text or "assumption")
 
+    crash_only = False
+
     def _rec(self, name, ok, detail=None):
+        if self.crash_only and "finite" not in name:
+            return True
         self.checked += 1
         if not ok:
             self.failed.append(dict(name=name, detail=detail))
